@@ -369,6 +369,12 @@ class WrapMon(Monitor):
             self.obs["recommendations_checked"] += 1
             if any(e[0] in ("pull", "reward", "new") for e in self.rec.events):
                 self.v("C09:GPO_recommendation_drives_a_learner")
+            if ctx.extra.get("mid"):
+                # between pull and receive_reward of the first validation round of a phase the score list holds a
+                # placeholder for the point under validation; the properties speak about the recommendation after a
+                # run / once all phases are over, so a mid-round answer is not judged (it must only be harmless)
+                self.obs["mid_round_queries"] += 1
+                return
             if not any(point is x for x in best):
                 self.v("C07:GPO_recommendation_is_not_the_best_validated_point", means=means)
                 self.v("C09:GPO_recommendation_is_not_the_best_validated_point", means=means)
